@@ -54,6 +54,17 @@ func runC10(c *Ctx) {
 		return t, ks
 	}
 	_, vk := tblKeys(pvV)
+	if len(vk) == 0 {
+		// the validator dispatch written as a package-level table action -> validation function
+		if dv := c.dispatch(pvV, func(p string) bool { return strings.Contains(p, ").GetAction(") }); dv.table {
+			for k := range dv.arms {
+				vk = append(vk, unquote(k))
+			}
+			sort.Strings(vk)
+			foundOnly, callReq := c.tableGuards(dv)
+			c.Check("C10.T1", "validator-table:verdict-returned", foundOnly && callReq, pvV.Pos(), "Validate succeeds only for an action present in the table and only when the table's validation function succeeded")
+		}
+	}
 	ct, ck := tblKeys(apf)
 	c.Check("C10.T1", "validator-cases", eqStrs(vk, want), pvV.Pos(), fmt.Sprintf("patchvalidator.Validate cases %v", vk))
 	c.Check("C10.T1", "composer-cases", eqStrs(ck, want), apf.Pos(), fmt.Sprintf("composer dispatch cases %v", ck))
@@ -228,25 +239,24 @@ func runC14(c *Ctx) {
 			continue
 		}
 		c.Analysed(f)
+		// the patch a constructor returns: a map built in place, or by a module helper from its arguments
 		ups := map[string]string{}
 		n := 0
-		forEachInstr(f, func(in ssa.Instruction) {
-			if mu, ok := in.(*ssa.MapUpdate); ok {
-				if _, isMM := mu.Map.(*ssa.MakeMap); isMM && typeShort(mu.Map.Type()) == "patch.Patch" {
-					ups[unquote(c.Path(mu.Key, nil))] = unquote(c.Path(mu.Value, nil))
-					n++
-				}
+		okRet := len(successReturns(f)) > 0
+		for _, r := range successReturns(f) {
+			lit, cnt, isLit := c.patchLiteral(r.Results[0], nil, 0)
+			if !isLit {
+				okRet = false
+				continue
 			}
-		})
+			if n != 0 && fmt.Sprint(lit) != fmt.Sprint(ups) {
+				okRet = false
+			}
+			ups, n = lit, cnt
+		}
 		wantKey := cfg[a]
 		_, hasVal := ups[wantKey]
 		ok := n == 2 && ups["action"] == a && hasVal
-		okRet := true
-		for _, r := range successReturns(f) {
-			if _, isMM := r.Results[0].(*ssa.MakeMap); !isMM {
-				okRet = false
-			}
-		}
 		c.Check("C14.X1", ctor[a], ok && okRet, f.Pos(), fmt.Sprintf("%s stores action=%q and exactly one value under %q (stores: %v)", ctor[a], ups["action"], wantKey, keysOf(ups)))
 	}
 	c.Min("C14.X1", 8)
@@ -613,10 +623,40 @@ func (c *Ctx) composerSkeletons(rule string, handlers map[string]*ssa.Function) 
 			}
 			return "fresh"
 		}
-		for _, l := range naturalLoops(h) {
-			// iterated collection: the slice indexed by the induction variable in the header's body
+		loops := naturalLoops(h)
+		nestedIn := func(inner, outer *loop) bool {
+			if inner == outer || len(inner.blocks) >= len(outer.blocks) {
+				return false
+			}
+			for b := range inner.blocks {
+				if !outer.blocks[b] {
+					return false
+				}
+			}
+			return true
+		}
+		for _, l := range loops {
+			top := true
+			inner := map[*ssa.BasicBlock]bool{}
+			for _, o := range loops {
+				if nestedIn(l, o) {
+					top = false
+				}
+				if nestedIn(o, l) {
+					for b := range o.blocks {
+						inner[b] = true
+					}
+				}
+			}
+			if !top {
+				continue // an inner loop is part of its enclosing loop's body (e.g. an inlined replace-by-id search)
+			}
+			// iterated collection: the slice indexed by this loop's own induction variable
 			loopOver := "?"
 			for b := range l.blocks {
+				if inner[b] {
+					continue
+				}
 				for _, in := range b.Instrs {
 					if ia, ok := in.(*ssa.IndexAddr); ok && c.Path(ia.Index, nil) == "ι" {
 						loopOver = classify(ia.X)
@@ -625,16 +665,21 @@ func (c *Ctx) composerSkeletons(rule string, handlers map[string]*ssa.Function) 
 			}
 			for b := range l.blocks {
 				for _, in := range b.Instrs {
-					cl, ok := in.(*ssa.Call)
-					if !ok {
-						continue
-					}
 					kind := ""
-					if bi, isB := cl.Call.Value.(*ssa.Builtin); isB && bi.Name() == "append" {
-						kind = "append(" + classify(cl.Call.Args[1]) + "-element)"
-					} else if g := cl.Call.StaticCallee(); g != nil && inModule(g) && g.Signature.Results().Len() == 0 && len(cl.Call.Args) == 2 {
-						kind = "update-in-place(" + classify(cl.Call.Args[1]) + "-element)"
-					} else {
+					switch x := in.(type) {
+					case *ssa.Call:
+						if bi, isB := x.Call.Value.(*ssa.Builtin); isB && bi.Name() == "append" {
+							kind = "append(" + classify(x.Call.Args[1]) + "-element)"
+						} else if g := x.Call.StaticCallee(); g != nil && inModule(g) && g.Signature.Results().Len() == 0 && len(x.Call.Args) == 2 && c.replacesByID(g) {
+							kind = "update-in-place(" + classify(x.Call.Args[1]) + "-element)"
+						}
+					case *ssa.Store:
+						// the replace-by-id search written in place: list[i] = element under ID(list[i]) == ID(element)
+						if _, val, ok := c.replaceByIDStore(x); ok {
+							kind = "update-in-place(" + classify(val) + "-element)"
+						}
+					}
+					if kind == "" {
 						continue
 					}
 					// controlling membership test: dominating If on the ok of a Lookup
@@ -775,33 +820,88 @@ func (c *Ctx) composerSkeletons(rule string, handlers map[string]*ssa.Function) 
 		}
 		c.Check(rule, "siblings-agree:"+strings.Join(grp, ","), ok, 0, "sibling handlers share one decision skeleton")
 	}
-	// in-place update helpers replace the element with equal id
-	for _, uf := range []string{"updateKey", "updateService"} {
-		f := c.Fn(pComposer, uf)
-		if f == nil {
-			c.Unresolved(rule, "doccomposer."+uf)
+	// the keyed add-handlers replace by id: through a helper (checked by replacesByID at the call) or in place
+	for _, a := range []string{"add-public-keys", "add-services"} {
+		h := handlers[a]
+		if h == nil {
 			continue
 		}
-		ok := false
-		forEachInstr(f, func(in ssa.Instruction) {
-			if st, isS := in.(*ssa.Store); isS && c.Path(st.Addr, nil) == "$0[ι]" && c.Path(st.Val, nil) == "$1" {
-				// guarded by ID equality
-				for x := st.Block(); x != nil; x = x.Idom() {
-					id := x.Idom()
-					if id == nil {
-						break
-					}
-					if iff, isIf := id.Instrs[len(id.Instrs)-1].(*ssa.If); isIf && id.Succs[0] == x {
-						cp := c.Path(iff.Cond, nil)
-						if strings.Contains(cp, ").ID($0[ι]) == ") && strings.Contains(cp, ").ID($1)") {
-							ok = true
-						}
-					}
+		n := 0
+		forEachInstr(h, func(in ssa.Instruction) {
+			switch x := in.(type) {
+			case *ssa.Call:
+				if g := x.Call.StaticCallee(); g != nil && inModule(g) && g.Signature.Results().Len() == 0 && len(x.Call.Args) == 2 && c.replacesByID(g) {
+					n++
+				}
+			case *ssa.Store:
+				if _, _, ok := c.replaceByIDStore(x); ok {
+					n++
 				}
 			}
 		})
-		c.Check(rule, uf+":replace-by-id", ok, f.Pos(), uf+" overwrites exactly the slots whose id equals the new element's id")
+		c.Check(rule, a+":replace-by-id", n == 1, h.Pos(), fmt.Sprintf("%s overwrites exactly the slots whose id equals the new element's id (%d replace-by-id site(s))", h.Name(), n))
 	}
+}
+
+// replaceByIDStore: the store writes val into list[i] on the true edge of ID(list[i]) == ID(val).
+func (c *Ctx) replaceByIDStore(st *ssa.Store) (list, val ssa.Value, ok bool) {
+	ia, isIA := st.Addr.(*ssa.IndexAddr)
+	if !isIA {
+		return nil, nil, false
+	}
+	slot := c.Path(ia, nil)
+	vp := c.Path(st.Val, nil)
+	for x := st.Block(); x != nil; x = x.Idom() {
+		id := x.Idom()
+		if id == nil {
+			break
+		}
+		if len(x.Preds) != 1 {
+			continue
+		}
+		iff, isIf := id.Instrs[len(id.Instrs)-1].(*ssa.If)
+		if !isIf || id.Succs[0] != x {
+			continue
+		}
+		bo, isB := iff.Cond.(*ssa.BinOp)
+		if !isB || bo.Op != token.EQL {
+			continue
+		}
+		idOf := func(v ssa.Value) string {
+			cl, isC := v.(*ssa.Call)
+			if !isC || cl.Call.StaticCallee() == nil || cl.Call.StaticCallee().Name() != "ID" || len(cl.Call.Args) != 1 {
+				return ""
+			}
+			return c.Path(cl.Call.Args[0], nil)
+		}
+		l, r := idOf(bo.X), idOf(bo.Y)
+		if (l == slot && r == vp) || (r == slot && l == vp) {
+			return ia.X, st.Val, true
+		}
+	}
+	return nil, nil, false
+}
+
+// replacesByID: helper g(list, element) whose only store into list is a replace-by-id store of its element parameter.
+func (c *Ctx) replacesByID(g *ssa.Function) bool {
+	if g.Blocks == nil || len(g.Params) != 2 {
+		return false
+	}
+	n, good := 0, 0
+	forEachInstr(g, func(in ssa.Instruction) {
+		st, ok := in.(*ssa.Store)
+		if !ok {
+			return
+		}
+		if _, isIA := st.Addr.(*ssa.IndexAddr); !isIA {
+			return
+		}
+		n++
+		if l, v, ok2 := c.replaceByIDStore(st); ok2 && l == ssa.Value(g.Params[0]) && v == ssa.Value(g.Params[1]) {
+			good++
+		}
+	})
+	return n == 1 && good == 1
 }
 
 func boolResult(g *ssa.Function) bool {
@@ -867,4 +967,44 @@ func (c *Ctx) docMembers(sl map[ssa.Value]bool) string {
 		return ""
 	}
 	return "{" + strings.Join(ms, ",") + "}"
+}
+
+// patchLiteral: v is a patch.Patch built by make + map updates (in place, or inside a module helper whose parameters
+// are renamed to the caller's argument paths); returns key -> value paths and the number of stores.
+func (c *Ctx) patchLiteral(v ssa.Value, env Env, depth int) (map[string]string, int, bool) {
+	switch x := v.(type) {
+	case *ssa.MakeMap:
+		if typeShort(x.Type()) != "patch.Patch" {
+			return nil, 0, false
+		}
+		out := map[string]string{}
+		n := 0
+		for _, r := range *x.Referrers() {
+			if mu, ok := r.(*ssa.MapUpdate); ok && mu.Map == ssa.Value(x) {
+				out[unquote(c.Path(mu.Key, env))] = unquote(c.Path(mu.Value, env))
+				n++
+			}
+		}
+		return out, n, true
+	case *ssa.Call:
+		g := x.Call.StaticCallee()
+		if g == nil || !inModule(g) || g.Blocks == nil || depth > 2 || g.Signature.Results().Len() != 1 {
+			return nil, 0, false
+		}
+		genv := c.calleeEnv(&x.Call, g, env)
+		var out map[string]string
+		cnt := 0
+		for _, r := range returnsOf(g) {
+			lit, n, ok := c.patchLiteral(r.Results[0], genv, depth+1)
+			if !ok || (out != nil && fmt.Sprint(lit) != fmt.Sprint(out)) {
+				return nil, 0, false
+			}
+			out, cnt = lit, n
+		}
+		if out != nil {
+			c.Analysed(g)
+		}
+		return out, cnt, out != nil
+	}
+	return nil, 0, false
 }
